@@ -1,0 +1,47 @@
+//go:build verif
+
+// Package simhook holds the scheduling and fault-injection hook points used by
+// the deterministic simulation harness. With the "verif" build tag the harness
+// installs its scheduler through the function variables below; when none is
+// installed the hooks do nothing.
+package simhook
+
+var (
+	YieldFn   func(site string)
+	SpawnedFn func(name string)
+	ExitedFn  func(name string)
+	BuggifyFn func(site string) bool
+	KnobFn    func(site string, def int) int
+)
+
+func Yield(site string) {
+	if f := YieldFn; f != nil {
+		f(site)
+	}
+}
+
+func Spawned(name string) {
+	if f := SpawnedFn; f != nil {
+		f(name)
+	}
+}
+
+func Exited(name string) {
+	if f := ExitedFn; f != nil {
+		f(name)
+	}
+}
+
+func Buggify(site string) bool {
+	if f := BuggifyFn; f != nil {
+		return f(site)
+	}
+	return false
+}
+
+func Knob(site string, def int) int {
+	if f := KnobFn; f != nil {
+		return f(site, def)
+	}
+	return def
+}
